@@ -59,7 +59,7 @@ def run(c):
     c.assumptions += ['complex dtype is not generated', 'integer and boolean arguments, axis lengths and loop lengths are sampled, real arguments are symbolic',
                       'parametricity of the Lean evaluator in its scalar carrier (equal normal forms => equal values for all real arguments) relies on Props/Poly soundness of the polynomial operations; the evaluator itself is executed, not kernel-reduced',
                       'a symbolic "differ" answer is never a verdict by itself: it falls back to exact comparison at the sampled point']
-    broken = c.build_and_audit()
+    broken = c.build_and_audit(extra_props=['Poly'])
     N = 120 if c.tier == 'quick' else 2500
     maxdepth = 4 if c.tier == 'quick' else 6
 
